@@ -173,7 +173,7 @@ def run(ctx, chk):
                 ok = lf is not None and lf.ret_type == rty
                 chk.ob("C15.wiring", "byte 0x%02X: loader returns %s" % (b, rty), ok, "src/cbor/streaming.c", fn="cbor_stream_decode", key="%02X:rty" % b)
     load = prog.fn("cbor_load")
-    g = prog.global_for(load, "cbor_load.callbacks")
+    g = __import__("tables").load_callbacks_global(prog)
     fields = tables.callback_fields(prog)
     for name, el in zip(fields, g["init_val"].elems):
         if name in ("float2", "float4", "float8"):
